@@ -127,10 +127,46 @@ def replay_insn(mnemonic, fvals, tree):
     return dict(jobs=[job], source=src, expected=[exp[0], exp[1], 2 + 2 * n_ext], observed=obs, reproduced=not ok)
 
 
+def replay_rel(mnemonic, tree):
+    """every rm/frm operand spelled as a forward-referenced PC-relative label (evaluated late): each extension word must be
+    target - (address of that word + 2), i.e. every operand must see ITS OWN rel_address when its closure finally runs"""
+    from spec import pdp11_isa as isa
+    fs = isa.FORMATS[isa.ISA[mnemonic][1]]
+    n_ext = sum(1 for k, _, _ in fs if k in ("rm", "frm"))
+    if not n_ext:
+        return None
+    ops, i = [], 0
+    for k, _, wd in fs:
+        if k in ("rm", "frm"):
+            ops.append("t%d" % i)
+            i += 1
+        else:
+            ops.append(spell_field(k, {"reg": 1, "ac": 1}.get(k, 1) % (1 << wd)))
+    src = ".link 1000\n%s %s\n" % (mnemonic, ", ".join(ops)) + "".join("t%d: .word 0\n" % j for j in range(n_ext))
+    job = {"kind": "asm", "sources": [src]}
+    res = driver.native([job], tree)[0]
+    exp = []
+    for j in range(n_ext):
+        ext_addr = 0o1000 + 2 + 2 * j
+        target = 0o1000 + 2 + 2 * n_ext + 2 * j
+        exp.append((target - (ext_addr + 2)) % 65536)
+    obs = None
+    if res["status"] == "ok":
+        code = bytes.fromhex(res["code_hex"])
+        obs = [code[2 + 2 * j] | code[3 + 2 * j] << 8 for j in range(n_ext)] if len(code) >= 2 + 2 * n_ext else ["short image", res["code_hex"]]
+    else:
+        obs = [res["status"], res.get("diags")]
+    return dict(jobs=[job], source=src, expected_extension_words=exp, observed=obs, reproduced=obs != exp)
+
+
 def replay(o, tree):
     cfg = o.get("cfg") or {}
     w = o.get("witness") or {}
     from spec import pdp11_isa as isa
+    if cfg.get("kind") == "insn" and (o.get("label", "").startswith("rel-address-operand") or o.get("label", "").startswith("state-otherwise-unchanged")):
+        r = replay_rel(cfg["mnemonic"], tree)
+        if r is not None and r["reproduced"]:
+            return r
     if cfg.get("kind") == "insn":
         fs = isa.FORMATS[isa.ISA[cfg["mnemonic"]][1]]
         return replay_insn(cfg["mnemonic"], [w.get("f%d" % i, 0) for i in range(len(fs))], tree)
